@@ -4,6 +4,7 @@ CONSTANTS
   Variants = {1}
   AllowRename = FALSE
   AllowBatchRace = TRUE
+  Fixed = FALSE
 INIT IInit
 NEXT INext
 INVARIANT ExactAfterDrain
